@@ -269,6 +269,14 @@ def worker(job):
     import logging
     logging.disable(logging.CRITICAL)
     part = common.Part()
+    if 'replay' in job and job['replay'].get('ftp_complete'):
+        from checks import c01b_ftp
+        c01b_ftp.run_case(job['replay'], part)
+        return part.dump()
+    if job.get('ftp_cases'):
+        from checks import c01b_ftp
+        for case in job['ftp_cases']:
+            c01b_ftp.run_case(case, part)
     cases = [job['replay']] if 'replay' in job else job['cases']
     orders = set()
     for case in cases:
@@ -338,9 +346,12 @@ def main():
         # each job runs under its own hash seed: the scraper hands over the links of a page as a set, so their order (which
         # role of a URL is seen first, which link is stored first) varies with it
         jobs = []
+        from checks import c01b_ftp
+        ftp_cases = [c01b_ftp.gen_case(rng) for _ in range(int((600 if check.thorough else 48) * check.scale))]
         for i in range(nj):
             if cases[i::nj]:
-                jobs.append({'cases': [dict(c, hashseed=i) for c in cases[i::nj]], '_env': {'PYTHONHASHSEED': i}})
+                jobs.append({'cases': [dict(c, hashseed=i) for c in cases[i::nj]], '_env': {'PYTHONHASHSEED': i},
+                             'ftp_cases': ftp_cases[i::nj]})
         res = par.run_jobs(target, jobs, check.jobs, timeout=7200 if check.thorough else 900)
     for r in res:
         if '_error' in r:
